@@ -97,7 +97,8 @@ PROPS = {
     "C04": dict(mc=["tcp_cond", "tcp_twoway", "ux_twoway"], paths=["tcp_cond"], mc_quick=["tcp_cond_q", "tcp_twoway"], paths_quick=["tcp_cond_q"],
                 tps=["tcp", "btcp", "ux", "uxf", "tls", "btls", "utls", "utlst"], raw=0.0, profile="C04", blocking=0.25, loop=0.45,
                 live=["live_tcp", "live_tcp_close", "live_btcp", "live_btcp_close", "live_ux", "live_ux_close"], live_broken=["no_pollout", "in_or_out"]),
-    "C05": dict(mc=["tcp_oneway"], paths=["tcp_oneway"], tps=["tcp", "btcp", "ux", "uxf"], raw=0.1, profile="default"),
+    "C05": dict(mc=["tcp_oneway"], paths=["tcp_oneway"], tps=["tcp", "btcp", "ux", "uxf", "tls", "btls", "utls", "utlst"], raw=0.1,
+                profile="C05", loop=0.2),
 }
 
 TIERS = {
@@ -203,7 +204,9 @@ def tp_of_cfg(name):
     return MC[name]["TP"].strip('"')
 
 
-def check(pid, tier, seed, only_random=False):
+def check(pid, tier, seed, only_random=False, extra=None):
+    """extra: optional callable(pid, tier, seed, rnd) -> (violations, coverage dict, notes) run before the evidence is written
+    (establishment-phase pipeline for C04 / C05 / C16)."""
     t0 = time.time()
     spec = PROPS[pid]
     T = TIERS[tier]
@@ -351,6 +354,16 @@ def check(pid, tier, seed, only_random=False):
     if nviol > 5:
         notes.append("%d further violating executions not written out" % (nviol - 5))
 
+    extra_cov = {}
+    if extra is None and pid in EST_TAGS:
+        extra = est_part
+    if extra is not None:
+        xv, extra_cov, xnotes = extra(pid, tier, seed, rnd)
+        violations.extend(xv)
+        notes.extend(xnotes)
+        states += extra_cov.get("states", 0)
+        transitions += extra_cov.get("transitions", 0)
+
     # ---- 6. evidence -----------------------------------------------------------
     samples = []
     for s in scripts[:1] + scripts[npaths:npaths + 2]:
@@ -367,6 +380,10 @@ def check(pid, tier, seed, only_random=False):
                steps_connection_errors=st["injected"], executions_by_transport=st["by_tp"], crashes=st["crashes"],
                model_mismatch_notes=mm, mismatches_tagged_for_other_properties=others, notes=notes,
                known_findings=known, exhaustive=False)
+    if extra_cov:
+        cov["establishment"] = extra_cov
+        cov["traces_validated_against_impl"] += extra_cov.get("executions", 0)
+        cov["evaluations"] += extra_cov.get("executions", 0)
     vlib.write_evidence(pid, tier, seed, "model_checking", cov, time.time() - t0, violations=len(violations),
                         assumptions=["loopback TCP and AF_UNIX sockets behave like the envelope model of the lower layer",
                                      "the shim only shortens/refuses real calls or injects errnos the kernel can produce",
@@ -375,7 +392,73 @@ def check(pid, tier, seed, only_random=False):
     return violations, known
 
 
+# properties that also consume the establishment-phase traces (harness/est_exec, spec/XcmEst*.tla)
+EST_TAGS = {"C04", "C05", "C16"}
+
+
+def est_part(pid, tier, seed, rnd):
+    import est
+    binary = vlib.build(["est_exec"])[0]
+    summary, states, transitions, bad = est.model_check()
+    violations, notes = [], []
+    for name, r in bad:
+        rp = vlib.save_replay(pid, "tlc_%s.txt" % name.replace("/", "_"), r["out"][-20000:])
+        violations.append(("design", "TLC: %s violated in %s" % (",".join(r["violated"]), name), rp))
+    scripts = est.gen_scripts(rnd, 3 if tier == "quick" else 40)
+    d, batch, nlines = est.run(binary, scripts, "est_%s_%s" % (pid, tier))
+    vl = est.validate(batch)
+    st = est.stats(batch)
+    if st["executions"] < len(scripts) * 0.9:
+        raise InternalError("only %d of %d establishment executions were recorded" % (st["executions"], len(scripts)))
+    if st["setup_failed"] > len(scripts) * 0.05:
+        raise InternalError("%d establishment executions failed to set up" % st["setup_failed"])
+    if st["calls_not_ready"] == 0:
+        raise InternalError("no API call was made while an operation could not complete (vacuous)")
+    others = {}
+    seen = set()
+    byx = {}
+    for s in scripts:
+        byx[int(s.split()[1])] = s
+    retry = []
+    for v in vl:
+        t = v["tag"]
+        if not (t.startswith(pid + ".") or t == "CRASH"):
+            others[t] = others.get(t, 0) + 1
+            continue
+        if v["x"] in seen:
+            continue
+        seen.add(v["x"])
+        retry.append(v)
+    # a rejection is reported only if a re-run of the same execution, alone, repeats it (machine load must not produce alarms)
+    for v in retry[:8]:
+        s = byx.get(v["x"])
+        d2, b2, _ = est.run(binary, [s], "est_%s_retry" % pid, nproc=1)
+        again = [w for w in est.validate(b2) if w["tag"] == v["tag"]]
+        if not again:
+            notes.append("establishment: %s in execution %s was not repeated by a sequential re-run (not reported)" % (v["tag"], s))
+            continue
+        body = "# %s step %d: %s\n# replay: bin/check %s --replay <this file>\n%s\n" % (v["tag"], v["n"], v["detail"], pid, s)
+        rp = vlib.save_replay(pid, "est_x%d.script" % v["x"], body)
+        with open(rp + ".trace.ndjson", "w") as tf:
+            tf.write(est.extract(batch, v["x"]))
+        violations.append(("conformance", "%s in establishment scenario '%s' at step %d: %s" % (v["tag"], s, v["n"], v["detail"]), rp))
+    cov = dict(states=states, transitions=transitions, model_configurations=summary, executions=st["executions"] - st["setup_failed"],
+               api_calls=st["api_calls"], api_calls_answered_eagain=st["calls_not_ready"], executions_by_scenario=st["by_scenario"],
+               stuck_runs=st["stuck"], crashes=st["crashes"], calls_with_wait=st["waits"], trace_lines=nlines,
+               mismatches_tagged_for_other_properties=others)
+    return violations, cov, notes
+
+
 def replay(pid, path):
+    lines0 = [l.rstrip("\n") for l in open(path) if l.strip() and not l.startswith("#")]
+    if lines0 and len(lines0[0].split()) >= 4 and lines0[0].split()[3] in ("normal", "refused", "silent", "release", "mute", "garbage", "idle"):
+        import est
+        binary = vlib.build(["est_exec"])[0]
+        d, batch, _ = est.run(binary, lines0, "replay_%s" % pid, nproc=1)
+        vl = est.validate(batch)
+        for v in vl:
+            print("MISMATCH", v["tag"], "step", v["n"], v["detail"])
+        return [v for v in vl if v["tag"].startswith(pid + ".") or v["tag"] == "CRASH"]
     binary = vlib.build(["conn_exec"])[0]
     lines = [l.rstrip("\n") for l in open(path) if l.strip() and not l.startswith("#")]
     d, traces = conn.run_scripts(binary, [lines], "replay_%s" % pid, nproc=1)
